@@ -143,6 +143,21 @@ def check_history(ctx, case):
         elif kind == "reset":
             reset_globals()
             model_global = 0.5
+        elif kind == "basicConfig":
+            val = op[1]
+            try:
+                basicConfig(max_calc_step_size=Distance.Foot(val))
+                if val <= 0:
+                    ctx.violation("global-setter.accepted-nonpositive", f"basicConfig(max_calc_step_size={val} ft) accepted", case)
+                model_global = val
+            except ValueError:
+                if val > 0:
+                    ctx.violation("global-setter.rejected-positive", f"basicConfig(max_calc_step_size={val} ft) raised ValueError", case)
+                else:
+                    ctx.count("nonpositive_rejected")
+            got = get_global_max_calc_step_size() >> Distance.Foot
+            if not abs(got - model_global) <= 1e-9 * model_global:
+                ctx.violation("global-setter.value", f"global maximum step is {got!r} ft, expected {model_global!r} ft after {op}", case)
         elif kind == "new":
             cfg = op[1]
             c = Calculator(_config=dict(cfg)) if cfg is not None else Calculator()
@@ -504,8 +519,10 @@ def gen_history(rng):
         if k < 0.3:
             val = rng.choice([0.25, 1.0, 2.0, round(rng.uniform(0.1, 3.0), 3), 0.0, -1.0])
             ops.append(["set", val, rng.choice([None, "Foot", "Inch", "Meter", "Yard", "Centimeter"])])
-        elif k < 0.4:
+        elif k < 0.36:
             ops.append(["reset"])
+        elif k < 0.42:
+            ops.append(["basicConfig", rng.choice([0.3, 1.5, -0.5, 0.75])])
         elif k < 0.85:
             cfg = None
             if rng.random() < 0.6:
